@@ -10,7 +10,7 @@ from vlib import core  # noqa: E402
 
 
 def checks():
-    from vlib import fam_import, fam_chroot, fam_frontend, fam_compile, fam_seq, fam_eval, fam_ints, fam_datamodel, fam_relmod
+    from vlib import fam_import, fam_chroot, fam_frontend, fam_compile, fam_seq, fam_eval, fam_ints, fam_datamodel, fam_relmod, fam_db
     table = {
         "C05": fam_import.check_c05,
         "C06": fam_import.check_c06,
@@ -25,6 +25,7 @@ def checks():
         "C14": fam_ints.check_c14,
         "C15": fam_datamodel.check_c15,
         "C17": fam_relmod.check_c17,
+        "C16": fam_db.check_c16,
     }
     for mod, names in OPTIONAL:
         try:
